@@ -165,6 +165,23 @@ def keepalive_oracle(ix: Index, scn: dict) -> list[Violation]:
     if stalls:
         return out
     horizon = end_t - 1e-6
+    armed = next((ev for ev in ix.h if ev[3] == "write_raises_armed"), None)
+    if armed is not None:
+        # from here on every transport write raises synchronously: the first thing the library writes (a keepalive ping,
+        # an answer to a device request) must end the session at once - a swallowed error would stop the keepalive for good
+        ta = armed[2]
+        raised = next((ev for ev in ix.h if ev[3] == "tr_write_raised"), None)
+        if raised is not None:
+            cs = ix.closed_seq.get(c)
+            if cs is None or ix.seq_turn[cs] > raised[1] + 1:
+                out.append(Violation("write-error-not-fatal", "", f"a transport write raised at t={raised[2]:.6f} but the session was not closed then (closed: {None if cs is None else ix.closed_t[c]})"))
+        elif close_obs is None and end_t - ta > 2.5 * K + max([0.0] + [a - ta for a in arrivals if a > ta]):
+            out.append(Violation("write-error-not-fatal", "no-write", f"writes fail since t={ta:.6f} and the peer has been silent for more than two intervals, yet the library never tried to write (keepalive stopped?)"))
+        arrivals = [a for a in arrivals if a < ta - tol]
+        pings_obs = [p for p in pings_obs if p < ta - tol]
+        horizon = min(horizon, ta - 1e-6)
+        if close_obs is not None and close_obs >= ta - tol:
+            close_obs, close_cls = None, None
     close_for_model = close_obs if close_cls == "PingFailedAPIError" else None
     outcomes = model(T0, K, arrivals, horizon, tol, pings_obs, close_for_model)
     ok = False
@@ -241,6 +258,8 @@ def gen_c10(rng: random.Random, stalls: bool = False) -> dict:
     if stalls:
         for _ in range(rng.randint(1, 4)):
             events.append({"at": {"on": "state", "match": {"new": "CONNECTED"}, "delay": rng.random() * N * K}, "do": "fault", "kind": "stall", "d": K * pick(rng, [0.5, 2.0, 5.0, 9.0]), "phase": "pre"})
+    if not stalls and rng.random() < 0.1:
+        events.append({"at": {"on": "state", "match": {"new": "CONNECTED"}, "delay": K * (1.0 + rng.random() * (N - 1))}, "do": "fault", "kind": "write_raises", "always": True, "exc": pick(rng, ["OSError", "RuntimeError"])})
     actors = [{"id": "a0", "at": {"t": 0.0}, "steps": [{"do": "connect", "login": rng.random() < 0.5}]}]
     if rng.random() < 0.25:
         # the application keeps writing fire-and-forget commands: outgoing traffic is no sign of life of the peer
